@@ -777,6 +777,11 @@ func VarBuilder(env *Zlisp, name string,
 	var valSexp Sexp
 	//Q("val is of type %T", val)
 	switch v := val.(type) {
+	case Selector:
+		// a selector stands for a place in an array or hash; the
+		// zero value of the selector types names no place, and
+		// reading, printing or assigning it dereferences nil.
+		return SexpNull, fmt.Errorf("var declaration error: a variable cannot have the internal type '%s'", rt.SexpString(nil))
 	case Sexp:
 		valSexp = v
 	case reflect.Value:
